@@ -48,10 +48,15 @@ def run(ctx):
     # 1. design check
     mc1 = fw.mc(ctx, "mc_nest", dict(Mode=q("nest")), workers=4, coverage=not quick, unreachable=("GroupMember",))   # groups: C17
     mc2 = fw.mc(ctx, "mc_rand", dict(Mode=q("rand"), NSample=ns, Depth=3, Width=2), workers=4)
+    mc3 = fw.mc(ctx, "mc_rec", dict(Mode=q("rec")), workers=4)      # recursive types (T1 -> T2 -> T1, T1 -> T1), finite chains
 
     # 2. model -> code
     jobs = [("gen_nest", dict(Mode=q("nest"))), ("gen_rand", dict(Mode=q("rand"), NSample=ns, Depth=3, Width=2))]
     jobs.append(("gen_rand4", dict(Mode=q("rand"), NSample=150 if quick else 3000, Depth=4, Width=1)))
+    jobs.append(("gen_rec", dict(Mode=q("rec"))))
+    # the same windows with built-in rules in place of the probe functions: these calls carry no function and no rule set
+    jobs.append(("gen_rec_b", dict(Mode=q("rec"), Alpha=q("builtin"))))
+    jobs.append(("gen_nest_b", dict(Mode=q("nest"), Alpha=q("builtin"))))
     vecs, markers = fw.gen_many(ctx, jobs, par=3)
     mfile = fw.markers_file(ctx, markers)
     r = ctx.run_vh(vh, ["walker-record", "-dump", "-nils", "-noinv", "-n", str(ng)])
@@ -101,7 +106,7 @@ def run(ctx):
              "non-trivial = distinct (scenario, carrier) pairs for which the contract expects at least one clause (a reached, violated probe or a required container); traces: the same + Go-random scenarios with nil elements",
         exhaustive=True,
         samples=[dict(scenario=fw.brief(sv["scn"]), expected=sv["exp"], real=[x for x in results if x["id"] == sv["id"]][:2]), psample],
-        mc_distinct_states=[mc1.distinct, mc2.distinct],
+        mc_distinct_states=[mc1.distinct, mc2.distinct, mc3.distinct],
     )
     fw.summarise(ctx)
     return ctx.finish("model_checking", cov, ASSUMPTIONS)
